@@ -477,6 +477,12 @@ static void zmInvMont(word b[], const word a[], const qr_o* r, void* stack)
 	register size_t k;
 	ASSERT(zmIsOperable(r));
 	ASSERT(zmIsIn(a, r));
+	// a == 0 не обратим: b <- 0
+	if (wwIsZero(a, r->n))
+	{
+		wwSetZero(b, r->n);
+		return;
+	}
 	// b <- a^{-1} 2^k \mod mod
 	k = zzAlmostInvMod(b, a, r->mod, r->n, stack);
 	ASSERT(wwBitSize(r->mod, r->n) <= k);
@@ -710,6 +716,12 @@ static void zmInvMont2(word b[], const word a[], const qr_o* r, void* stack)
 	ASSERT(zmIsOperable(r));
 	ASSERT(zmIsIn(a, r));
 	params = (const zm_mont_params_st*)r->params;
+	// a == 0 не обратим: b <- 0
+	if (wwIsZero(a, r->n))
+	{
+		wwSetZero(b, r->n);
+		return;
+	}
 	// b <- a^{-1} 2^k \mod mod
 	k = zzAlmostInvMod(b, a, r->mod, r->n, stack);
 	ASSERT(wwBitSize(r->mod, r->n) <= k);
